@@ -506,7 +506,7 @@ def kinds(tier):
     ]
 
 
-REGISTERED = False
+REGISTERED = True
 LEVEL_TEXT = ("Every backend is driven through its write-group protocol with "
               "the updates of generated real histories and compared, after "
               "every group, re-open, abort and crash, with a dictionary model "
